@@ -57,6 +57,20 @@ def run(ctx):
     if realised == 0:
         raise vlib.ToolError("the gated GC race was never realised")
 
+    # R: a reader of a second Index instance parked in the middle of loading (after it read meta.json /
+    # before its first open of a segment file) while the writer commits, merges and collects:
+    # the GC must not remove a file the reader still has to open (judged by ReaderTrace: no failing open)
+    from props import c05
+    rp = ctx.path("reader_gated.ndjson")
+    vlib.run_bin("reader_driver", ["gated", "--seed", ctx.seed + 5, "--runs", 8 if ctx.quick else 80, "--out", rp], timeout=900)
+    rev = vlib.read_ndjson(rp)
+    rruns = c05.prepare(rev)
+    rreal = sum(1 for e in rev if e.get("ev") == "schedule" and e.get("realised"))
+    n5 = tracecheck.validate_runs(ctx, rruns, "reader_gated", "ReaderTrace", "ReaderTrace.cfg", key=c05.key, nontrivial=lambda r: True, timeout=300)
+    ctx.cov["traces_validated_against_impl"] += n5
+    ctx.cov["gated_reader_vs_gc"] = {"runs": len(rruns), "realised": rreal, "accepted": n5}
+    log(f"[R] reader parked in the middle of loading while the writer commits, merges and collects: {rreal}/{len(rruns)} realised, {n5} accepted")
+
     evc = sc.record_histories(ctx, "crash_fixed", sc.fixed_histories()[:2], crash_images=3 if ctx.quick else 8, stride=6 if ctx.quick else 1)
     if not ctx.quick:
         evc += sc.record_random(ctx, "crash_rand", 40, 18, ctx.seed + 17, crash_images=4, stride=2)
